@@ -828,7 +828,11 @@ def checkFile (inflate : Bytes → Option Bytes) (file : Bytes) : R FileFacts :=
             match tget t 0 with
             | some e0 =>
               if e0.kind != 0 then .error "cross-reference: object 0 is not free"
-              else if isTable && e0.b != 65535 then .error "xref table: object 0 does not have generation 65535"
+              else if e0.b != 65535 then
+                -- 7.5.4 for tables; for cross-reference streams the third field of a type 0 entry is
+                -- the generation number (7.5.8.3), which for object 0 is 65535 as well
+                .error (if isTable then "xref table: object 0 does not have generation 65535"
+                        else "xref stream: object 0 does not have generation 65535")
               else
                 -- the body: header, then the in-use objects in offset order, then the section
                 let body := (inUseByOffset t).filter fun e => e.2.a != off
